@@ -139,6 +139,12 @@ func shapeKey(c Config) string {
 	if c.LongDrain {
 		k += fmt.Sprintf(" backlog-handover-takes>=%ds", c.GateUs/1000000)
 	}
+	if c.SlowBacklog {
+		k += fmt.Sprintf(" accepted-backlog-work-after-stop>=%ds", slowBacklogSecs(c))
+	}
+	if c.CloseConn {
+		k += " conn-closed-at-serve-return"
+	}
 	return k
 }
 
@@ -431,6 +437,13 @@ func buildSweep(run *ev.Run) []Config {
 		// 11 s after Stop (runs in a child process of its own, concurrently
 		// with the rest of the sweep)
 		add(longDrainConfig(rng, 1, 1, 2, 11, 0))
+		// 2 configs: the backlog that is in the work queue / with the workers at
+		// Stop takes 14 s / 13 s to work off after the drain (Serve's wait for
+		// its workers); in one the caller closes the connection as soon as
+		// Serve has returned (each in a child process of its own, concurrently
+		// with the rest of the sweep)
+		add(slowBacklogConfig(rng, 1, 8, 4, 3500, true, 0))
+		add(slowBacklogConfig(rng, 2, 2, 4, 6500, false, 1))
 		out = append(out, soleWorkerProbe(rng, len(out))...)
 		out = append(out, connLossFullProbe(rng, len(out))...)
 		return out
@@ -611,6 +624,12 @@ func buildSweep(run *ev.Run) []Config {
 	for i, x := range [][4]int{{1, 1, 2, 11}, {2, 2, 5, 11}, {1, 2, 3, 31}, {4, 1, 1, 31}, {2, 8, 4, 61}} {
 		add(longDrainConfig(rng, x[0], x[1], x[2], x[3], i))
 	}
+	// work left in the queue / the workers after the drain takes 13 s .. 64 s
+	// (w, q, k, ms per request), with and without the caller closing the
+	// connection at Serve's return
+	for i, x := range [][4]int{{1, 8, 4, 3500}, {2, 2, 4, 6500}, {1, 1, 2, 8000}, {4, 64, 40, 1300}, {1, 0, 1, 13000}, {2, 8, 10, 6500}, {8, 1, 9, 16000}, {1, 2, 3, 21500}} {
+		add(slowBacklogConfig(rng, x[0], x[1], x[2], x[3], i%2 == 0, i))
+	}
 	out = append(out, soleWorkerProbe(rng, len(out))...)
 	out = append(out, connLossFullProbe(rng, len(out))...)
 	return out
@@ -693,6 +712,32 @@ func longDrainConfig(rng *rand.Rand, w, q, extra, secs, rep int) Config {
 	c.Bad, c.DrainTO, c.HWM, c.StopUs, c.NoReply = 0, "", "", 0, 0
 	c.PureRecv = false // "callback parked on the full queue" is observed through the received handler
 	return c
+}
+
+// slowBacklogConfig: duration of the work left after the drain as a dimension.
+// k <= q+w requests, all received before Stop and all in the work queue or with
+// a worker when Stop is called (nothing is parked inside the NATS client: Stop
+// has nothing to wait for); the gate opens 1 ms after Stop was called and every
+// handler then takes `ms`: the w workers need ceil(k/w) x ms to work the
+// accepted backlog off, and Serve must not return before that - however long
+// it takes - with every request processed once and answered.  closeConn: the
+// caller closes the connection the moment Serve returns.
+func slowBacklogConfig(rng *rand.Rand, w, q, k, ms int, closeConn bool, rep int) Config {
+	c := fill(rng, Config{W: w, Q: q, BClass: "k<=q+w", Dur: "gate", Rep: rep})
+	c.B, c.K = k, k
+	c.Rest = "after"
+	c.Arrival = "burst"
+	c.GateUs = 1000
+	c.PostGateUs = ms * 1000
+	c.SlowBacklog, c.CloseConn = true, closeConn
+	c.Bad, c.DrainTO, c.HWM, c.StopUs, c.NoReply = 0, "", "", 0, 0
+	c.PureRecv = false
+	return c
+}
+
+// slowBacklogSecs: the time the workers need for the accepted backlog.
+func slowBacklogSecs(c Config) int {
+	return (c.K + c.W - 1) / c.W * c.PostGateUs / 1000000
 }
 
 // badReqConfig: at least as many failing requests as workers, interleaved
@@ -941,7 +986,7 @@ var panicNorm = regexp.MustCompile(`0x[0-9a-fA-F]+|\d+`)
 
 func runC20(tier string, args []string) int {
 	run := ev.New("C20", tier, "exploration")
-	run.Rule("configuration sweep workers {1,2,4,8} x queue {1,2,8,64} x burst {1,q,q+w,q+w+1,2(q+w),10(q+w)} x handler {0,1ms,5ms,PRNG 0-3ms,gate released after Stop is called} x position of Stop (incl. position 0 issued right after `go Serve()` without waiting for the subscription, with no / Gosched / 1-200us yields so that Stop is called both before and after Serve is parked; otherwise k of b double-flushed into the server's NATS client first; the rest published concurrently with Stop and/or after it returned; one extra request after Stop returned in every scenario) x caller of Stop (harness goroutine, or a worker goroutine: the processor / started / finished event handler of a shutdown request placed inside the double-flushed stream, wherever the drain can finish without that worker) x subjects 1-4 with traffic on a subset (idle subscriptions next to busy ones, incl. full queue with exactly as many requests parked in the NATS client as there are idle subjects) x WithHighWatermark {default, 1ms, 10ms, 50ms} incl. queue waits beyond it, the library's default request-received handler always in effect (wrapped by the counter, or left to the builder) x queue length also 0 and 1 (workers 1, 2, 4, 8) x handlers gated for 6.5 s after Stop was called (Serve must not return before they are answered) x drain duration: burst q+w+(subjects with traffic)+{1..5} all received before Stop, handlers gated until 11 s (quick; thorough also 31 s, 61 s) after Stop was entered, so the hand-over of the backlog parked inside the NATS client - which Stop waits for - takes at least that long (duration is a workload parameter, never an oracle; each such scenario in a child process of its own, concurrent with the rest; no-progress watchdog = gate + 15 s where that exceeds 30 s) x queue group or none, subject list naming a subject twice (with a queue group) x late requests after Stop AND Serve returned in every scenario (the stopped server takes nothing off NATS: no request-received event, no processing, and a probe member of the queue group subscribed after Serve returned sees every late request) x failing requests (>= worker count: message shorter than the frame size, bad header version, truncated header, processor error) interleaved in front of well-formed ones x fault 'server connection lost right before Stop' (NoReconnect; TCP cut through a relay / private broker shut down; k <= q+w requests in the work queue; replies not judged, processing before Serve returns is) x messages WITHOUT reply subject (plain Publish on a service subject; 0 in 10 of 16 configs, else 1, 2, 5, at any position of the received-before-Stop stream; nothing is demanded for them, 'finished == received' allows for them) x fault 'link blip of the server connection' (default reconnect behaviour, ReconnectWait 20ms / 1ms, through a relay that goes down AFTER Stop returned and every drained subscription left the client's table, with k <= q+w accepted requests parked on the gate and nothing of the server on its way to the socket; the gate opens once the connection reports RECONNECTING, so every reply is published into the client's reconnect buffer; the link comes back after Serve returned or 0-2ms after the gate opened; replies judged after status CONNECTED + a Flush round trip; if Stop has not returned 10s after it was called the gate opens without a blip) x server connection option DrainTimeout {default, bare Options literal = 0, 1ms, 50ms} incl. backlogs that outlast it x server connection shared with an unrelated subscription or not x 1-2 subjects x arrival pattern; every scenario runs a real FNatsServer against an embedded nats-server in a child process; distinct = (w, q, burst class, handler mode, stop-position class, rest mode, sharing, subjects)")
+	run.Rule("configuration sweep workers {1,2,4,8} x queue {1,2,8,64} x burst {1,q,q+w,q+w+1,2(q+w),10(q+w)} x handler {0,1ms,5ms,PRNG 0-3ms,gate released after Stop is called} x position of Stop (incl. position 0 issued right after `go Serve()` without waiting for the subscription, with no / Gosched / 1-200us yields so that Stop is called both before and after Serve is parked; otherwise k of b double-flushed into the server's NATS client first; the rest published concurrently with Stop and/or after it returned; one extra request after Stop returned in every scenario) x caller of Stop (harness goroutine, or a worker goroutine: the processor / started / finished event handler of a shutdown request placed inside the double-flushed stream, wherever the drain can finish without that worker) x subjects 1-4 with traffic on a subset (idle subscriptions next to busy ones, incl. full queue with exactly as many requests parked in the NATS client as there are idle subjects) x WithHighWatermark {default, 1ms, 10ms, 50ms} incl. queue waits beyond it, the library's default request-received handler always in effect (wrapped by the counter, or left to the builder) x queue length also 0 and 1 (workers 1, 2, 4, 8) x handlers gated for 6.5 s after Stop was called (Serve must not return before they are answered) x drain duration: burst q+w+(subjects with traffic)+{1..5} all received before Stop, handlers gated until 11 s (quick; thorough also 31 s, 61 s) after Stop was entered, so the hand-over of the backlog parked inside the NATS client - which Stop waits for - takes at least that long (duration is a workload parameter, never an oracle; each such scenario in a child process of its own, concurrent with the rest; no-progress watchdog = gate + 15 s where that exceeds 30 s) x work left after the drain: k <= q+w requests all in the work queue / with a worker at Stop (nothing parked in the NATS client), handlers of 3.5 s / 6.5 s (thorough up to 21.5 s) each so that the w workers need 13-14 s (thorough up to 64 s) after the queue was closed - Serve must wait for them however long that takes: finished == received and every reply present at the instant Serve returns (duration is a workload parameter, never an oracle; own child process each, concurrent with the rest) x the caller closes the server's NATS connection the moment Serve returns (replies judged after the broker dropped that client) or keeps it x queue group or none, subject list naming a subject twice (with a queue group) x late requests after Stop AND Serve returned in every scenario (the stopped server takes nothing off NATS: no request-received event, no processing, and a probe member of the queue group subscribed after Serve returned sees every late request) x failing requests (>= worker count: message shorter than the frame size, bad header version, truncated header, processor error) interleaved in front of well-formed ones x fault 'server connection lost right before Stop' (NoReconnect; TCP cut through a relay / private broker shut down; k <= q+w requests in the work queue; replies not judged, processing before Serve returns is) x messages WITHOUT reply subject (plain Publish on a service subject; 0 in 10 of 16 configs, else 1, 2, 5, at any position of the received-before-Stop stream; nothing is demanded for them, 'finished == received' allows for them) x fault 'link blip of the server connection' (default reconnect behaviour, ReconnectWait 20ms / 1ms, through a relay that goes down AFTER Stop returned and every drained subscription left the client's table, with k <= q+w accepted requests parked on the gate and nothing of the server on its way to the socket; the gate opens once the connection reports RECONNECTING, so every reply is published into the client's reconnect buffer; the link comes back after Serve returned or 0-2ms after the gate opened; replies judged after status CONNECTED + a Flush round trip; if Stop has not returned 10s after it was called the gate opens without a blip) x server connection option DrainTimeout {default, bare Options literal = 0, 1ms, 50ms} incl. backlogs that outlast it x server connection shared with an unrelated subscription or not x 1-2 subjects x arrival pattern; every scenario runs a real FNatsServer against an embedded nats-server in a child process; distinct = (w, q, burst class, handler mode, stop-position class, rest mode, sharing, subjects)")
 	run.Assume("embedded nats-server v2 routes a PUB to the subscribers' outbound queues before it answers the publisher's PING, and a connection's PONG follows the MSGs queued before it (the double flush defines 'received before Stop', as the pinned TestShutdown does on one connection)")
 	run.Assume("nats.go SubscribeSync/Pending/NextMsg on the collector connection and Flush are correct (reply collector)")
 	run.Assume("link blip: nats.go switches a connection's writer to its reconnect buffer before Status() reports RECONNECTING, a Publish in that state returns nil and is written to the new socket before Status() reports CONNECTED (8 MB buffer, replies are < 100 bytes); the relay cuts the link only when no reply can be on its way to the socket")
@@ -1011,7 +1056,7 @@ func runC20(tier string, args []string) int {
 	own := 0
 	var pooled []Config
 	for _, c := range configs {
-		if c.LongDrain && replay == "" {
+		if (c.LongDrain || c.SlowBacklog) && replay == "" {
 			jobs = append(jobs, job{binary: self, tag: fmt.Sprintf("own%d", own), cfgs: []Config{c}})
 			own++
 			continue
@@ -1047,7 +1092,7 @@ func runC20(tier string, args []string) int {
 			if len(sample) >= 160 {
 				break
 			}
-			if configs[i].B <= 100 && !configs[i].LongDrain {
+			if configs[i].B <= 100 && !configs[i].LongDrain && !configs[i].SlowBacklog {
 				sample = append(sample, configs[i])
 			}
 		}
@@ -1212,6 +1257,16 @@ func runC20(tier string, args []string) int {
 			}
 			if r.AtStop.Received-r.AtStop.Started > int64(r.Config.Q) && r.Pre > int(r.AtStop.Received) {
 				run.Add("scenarios_long_drain_with_requests_parked_in_nats_client_at_stop", 1)
+			}
+		}
+		if r.Config.SlowBacklog {
+			run.Add("scenarios_slow_accepted_backlog", 1)
+			// diagnostic: Serve was observed to wait for its workers
+			if secs := slowBacklogSecs(r.Config); r.ServeMs >= float64(secs*1000-1000) {
+				run.Add("scenarios_serve_waited_longer_than_10s_for_its_workers", 1)
+			}
+			if r.Config.CloseConn {
+				run.Add("scenarios_conn_closed_by_caller_at_serve_return", 1)
 			}
 		}
 		if r.Config.QGroup {
